@@ -18,6 +18,7 @@ import (
 	"encoding/json"
 	"fmt"
 	"os"
+	"pdverif/vkit"
 	"reflect"
 	"runtime"
 	"sync"
@@ -117,6 +118,7 @@ func Fatal(msg string) {
 		os.RemoveAll(f.Svr.GetConfig().DataDir)
 	}
 	fmt.Printf("VERIF-FIXTURE-FAILURE (inconclusive, not a violation): %s\n", msg)
+	vkit.FlushStats() // what the properties before this one found must not be lost
 	os.Exit(3)
 }
 
